@@ -296,22 +296,21 @@ class SandboxedEnvironment(Environment):
             return obj[argument]
         except (TypeError, LookupError):
             if isinstance(argument, str):
+                # str() of a str subclass runs data code; whatever it raises
+                # belongs to the caller and is not a lookup failure.
+                attr = str(argument)
+
                 try:
-                    attr = str(argument)
-                except Exception:
+                    value = getattr(obj, attr)
+                except AttributeError:
                     pass
                 else:
-                    try:
-                        value = getattr(obj, attr)
-                    except AttributeError:
-                        pass
-                    else:
-                        fmt = self.wrap_str_format(value)
-                        if fmt is not None:
-                            return fmt
-                        if self.is_safe_attribute(obj, argument, value):
-                            return value
-                        return self.unsafe_undefined(obj, argument)
+                    fmt = self.wrap_str_format(value)
+                    if fmt is not None:
+                        return fmt
+                    if self.is_safe_attribute(obj, argument, value):
+                        return value
+                    return self.unsafe_undefined(obj, argument)
         return self.undefined(obj=obj, name=argument)
 
     def getattr(self, obj: t.Any, attribute: str) -> t.Any | Undefined:
